@@ -4,4 +4,6 @@ let () =
   | _ :: "c12" :: rest -> C12.run rest
   | _ :: ("c10" | "c11") :: rest -> C10.run rest
   | _ :: ("c05" | "c14") :: rest -> C05.run rest
+  | _ :: "c13" :: rest -> C13.run rest
+  | _ :: ("c04" | "c07") :: rest -> C04.run rest
   | _ -> prerr_endline "usage: model <property> ..."; exit 2
